@@ -210,6 +210,19 @@ pub fn collections(cex: &Value) -> Result<String, String> {
           log.push(format!("[collect] one element collected through {how} gives {m:?} / {}", serde_json::to_string(&m).unwrap()));
         }
       }
+      // push onto an empty Many gives One(value), however that Many came about (fresh, with spare capacity, emptied)
+      let mut emptied = vec![1u8, 2, 3];
+      emptied.clear();
+      for (how, mut m) in [("Vec::new", OneOrMany::Many(Vec::new())), ("with_capacity", OneOrMany::Many(Vec::with_capacity(8))), ("cleared", OneOrMany::Many(emptied)), ("from(with_capacity)", OneOrMany::from(Vec::<u8>::with_capacity(3)))] {
+        m.push(2u8);
+        if m != OneOrMany::One(2u8) || serde_json::to_string(&m).unwrap() != "2" {
+          log.push(format!("[collect] push onto an empty Many ({how}) gives {m:?}"));
+        }
+        m.push(3u8);
+        if m != OneOrMany::Many(vec![2, 3]) {
+          log.push(format!("[collect] second push gives {m:?}"));
+        }
+      }
       let none: OneOrMany<u8> = [1u8].into_iter().filter(|x| *x == 2).collect();
       let two: OneOrMany<u8> = [1u8, 2, 3].into_iter().filter(|x| *x != 2).collect();
       if none.len() != 0 || two != OneOrMany::Many(vec![1, 3]) {
